@@ -76,6 +76,8 @@ def build_harness(profile="chk", features=None):
     if cur != tmpl:
         open(p, "w").write(tmpl)
     env = dict(os.environ, CARGO_NET_OFFLINE="true", RUSTFLAGS=os.environ.get("RUSTFLAGS", ""))
+    if REPO != "/repo":
+        env["CARGO_TARGET_DIR"] = os.path.join(OUT, "target-scratch")      # scratch copies share compiled dependencies
     cmd = ["cargo", "build", "--offline", "--profile", profile]
     tdir = "target"
     if features is not None:
@@ -85,6 +87,11 @@ def build_harness(profile="chk", features=None):
     r = subprocess.run(cmd, cwd=d, env=env, capture_output=True, text=True)
     if r.returncode != 0:
         res = (None, r.stderr[-4000:])
+    elif REPO != "/repo" and features is None:
+        # copy the binary out of the shared scratch target so that a later scratch build cannot replace it under a running check
+        dst = os.path.join(d, f"tzverif-{profile}")
+        shutil.copy(os.path.join(OUT, "target-scratch", profile, "tzverif"), dst)
+        res = (dst, "")
     else:
         res = (os.path.join(d, tdir, profile, "tzverif"), "")
     log(f"[build] {' '.join(cmd)} -> {r.returncode} in {time.time()-t0:.1f}s")
